@@ -113,9 +113,12 @@ PROPS = {
     },
     "C14": {
         "lean": ["Stackage.Props.C14"],
-        "streams": [{"name": "pol", "quick": 3000, "thorough": 60000}],
+        "streams": [{"name": "pol", "quick": 3000, "thorough": 60000}, {"name": "closures", "quick": 3000, "thorough": 60000}],
         "rule": "push batches against five push policies (reject nil / strings / ints>5 / nothing / everything) with install/replace/remove, with and "
-                "without capacity; content and Err() class compared after every step",
+                "without capacity; content and Err() class compared after every step; stream closures: install / replace / remove sequences (by value, nil, and the "
+                "argument-less variadic form) of validity, presentation, equality, marshal and unmarshal closures on Stacks of every kind (also case-folded, BASIC) and on "
+                "Conditions; after every call Valid (error or not, and whose), String, IsEqual against an equal copy and against a different value, Unmarshal, Err; Marshal "
+                "as an operation",
         "modelled": COMMON_MODELLED,
         "assumptions": ["policies are pure functions of the offered value"],
     },
@@ -388,6 +391,8 @@ def _c13_cond(out):
 def projection(pid, stream):
     if pid == "C13" and stream == "condhist":
         return _c13_cond
+    if pid == "C14" and stream == "closures":
+        return lambda s: s
     return PROJ.get(pid, lambda s: s)
 
 
